@@ -112,7 +112,7 @@ def tree_key(S, T):
 def run_linop(ctx, prop, prop_file, n_quick, n_thorough, want):
     """want: set of facets in {'adj','normal','shapes','apply','applyH','applyN','reject','dot','linear','pure','dense'}"""
     from tools import translate_all
-    tr_err = translate_all.run(strict=False, only=["linop_table", "block"])
+    tr_err = translate_all.run(strict=False, only=["linop_table", "block", "shapes"])
     ctx.obligation("translate:sigpy/linop.py adjoint/normal table", not tr_err)
     if tr_err:
         ctx.notes.append("translator failed closed: %s" % tr_err)
@@ -163,7 +163,14 @@ def run_linop(ctx, prop, prop_file, n_quick, n_thorough, want):
         ctx.count(prop + ":" + (c.log[0] if c.log else top), key=T, nontrivial=nontriv, sample=desc)
         info = {"term": T, "desc": desc}
         x = cvec(rng, A.ishape, True)
+        # input stored in a REAL dtype (the operator may still be complex).  Only for trees without library-backed leaves:
+        # fft/nufft of a real array is computed in complex64 by design and scipy-based convolution rejects mixed dtypes
+        real_ok = not S.opaque
+        if real_ok and rng.random() < 0.4:
+            x = np.ascontiguousarray(x.real)
         yv = cvec(rng, A.oshape, True)
+        if real_ok and rng.random() < 0.25:
+            yv = np.ascontiguousarray(yv.real)
         x0, yv0 = x.copy(), yv.copy()
         snaps = [(a, a.copy()) for _, a in S.arrays.values()]
         try:
